@@ -90,7 +90,7 @@ func runC10(c *Ctx) {
 			}
 		}
 	}
-	L.Floor("draw-index-safe", 40, "row, row-list and alphabet-table index sites of the ten randomised operations")
+	L.Floor("draw-index-safe", 20, "row, row-list and alphabet-table index sites of the ten randomised operations (floor = half of the instances on the pinned tree: a clean-up may merge instances, a rule that sees nothing must still fail)")
 	// exactness of the draw ranges
 	L.Rule("draw-support", "the range of every draw is exactly the set of admissible positions: a value drawn by rand.Intn(X) (or an element of rand.Perm(X)) that indexes a container of length LEN requires X == LEN; a drawn window start r used as [r : r+w] or as the start of a loop j = r .. r+w-1 requires (X-1)+w == LEN; in a Fisher-Yates step the partner index must be X-1. A smaller range makes the last position unreachable, a larger one is caught by the safety rule")
 	for _, r := range fns {
@@ -98,7 +98,7 @@ func runC10(c *Ctx) {
 			c.checkDrawSupport(r)
 		}
 	}
-	L.Floor("draw-support", 20, "Intn and Perm sites of the randomised operations")
+	L.Floor("draw-support", 10, "Intn and Perm sites of the randomised operations (floor = half of the instances on the pinned tree: a clean-up may merge instances, a rule that sees nothing must still fail)")
 	c.checkRandomFrame()
 	c.checkRateDomains("rate-domain", []rateSpec{
 		{"SimulateRogue", "prop", 0, 1, false}, {"SimulateRogue", "proplen", 0, 1, false},
@@ -108,7 +108,7 @@ func runC10(c *Ctx) {
 		{"ShuffleSites", "rate", 0, 1, false}, {"ShuffleSites", "roguerate", 0, 1, false},
 		{"BuildBootstrap", "frac", 0, 1, true},
 	})
-	L.Floor("rate-domain", 10, "rate and proportion parameters of the randomised operations")
+	L.Floor("rate-domain", 5, "rate and proportion parameters of the randomised operations (floor = half of the instances on the pinned tree: a clean-up may merge instances, a rule that sees nothing must still fail)")
 	c.checkReplay()
 	// replay also needs the caller's inputs to be left as they were: a second call with the same
 	// seed must see the same counts map / alignment
@@ -119,7 +119,7 @@ func runC10(c *Ctx) {
 		{"align", "*align", "BuildBootstrap", []int{0}},
 		{"align", "*align", "RandSubAlign", []int{0}},
 	})
-	L.Floor("input-unmodified", 7, "sampling operations and their count map")
+	L.Floor("input-unmodified", 3, "sampling operations and their count map (floor = half of the instances on the pinned tree: a clean-up may merge instances, a rule that sees nothing must still fail)")
 }
 
 // fromFloatConv: v is (partly) computed from a float-to-int conversion.
@@ -531,7 +531,7 @@ func (c *Ctx) checkRandomFrame() {
 			}
 		}
 	}
-	L.Floor("random-frame", 12, "row stores of six operations")
+	L.Floor("random-frame", 6, "row stores of six operations (floor = half of the instances on the pinned tree: a clean-up may merge instances, a rule that sees nothing must still fail)")
 	c.checkAlphabetConsts("alphabet-table", c.withHelperDecls("align", "*align", "Mutate"))
 	L.Rule("alphabet-table", "the residue table used by Mutate is the one of the alignment's alphabet")
 	L.Floor("alphabet-table", 2, "both residue tables are used in Mutate")
@@ -605,13 +605,13 @@ func (c *Ctx) checkReplay() {
 
 	L.Rule("rng-in-goroutine", "no top-level math/rand function is reachable through the call graph from the function operand of any `go` statement")
 	c.checkNoRNGInGoroutines("rng-in-goroutine", c.P, L, true)
-	L.Floor("rng-in-goroutine", 7, "go statements of the repository")
+	L.Floor("rng-in-goroutine", 3, "go statements of the repository (floor = half of the instances on the pinned tree: a clean-up may merge instances, a rule that sees nothing must still fail)")
 	if cp := c.Controls(); cp != nil {
 		_, fired := c.checkNoRNGInGoroutines("rng-in-goroutine", cp, L, false)
 		L.ControlMustFire("rng-in-goroutine", fired, "controls/rnggo.go draws rand.Intn inside a goroutine")
 	}
 	c.checkMapRanges("map-order", []string{"align"}, nil)
-	L.Floor("map-order", 6, "range-over-map sites of package align (rarefy sorts its keys before drawing)")
+	L.Floor("map-order", 3, "range-over-map sites of package align (rarefy sorts its keys before drawing) (floor = half of the instances on the pinned tree: a clean-up may merge instances, a rule that sees nothing must still fail)")
 
 	// BuildBootstrap: output length and frac reset
 	L.Rule("bootstrap-length", "BuildBootstrap draws exactly n = int(frac*L) columns, allocates rows of n bytes, and replaces frac by 1 exactly when frac <= 0 or frac > 1")
